@@ -1,1 +1,17 @@
-def main : IO Unit := IO.println "placeholder"
+/-
+Line-protocol driver: one operation per input line, one result per output line.
+`<property id> <op> <args…>`; imports core-only model modules so it links as a native exe.
+-/
+import Nitime.Model.Registry
+
+partial def loop (h : IO.FS.Stream) (out : IO.FS.Stream) : IO Unit := do
+  let line ← h.getLine
+  if line.isEmpty then return ()
+  let toks := (line.trimAscii.toString.splitOn " ").filter (· ≠ "")
+  out.putStrLn (Nitime.dispatch toks)
+  loop h out
+
+def main : IO Unit := do
+  let out ← IO.getStdout
+  loop (← IO.getStdin) out
+  out.flush
